@@ -23,6 +23,7 @@ import (
 	"fmt"
 	"log"
 	"net/http"
+	"sync"
 	"time"
 
 	"context"
@@ -63,6 +64,10 @@ type Connection struct {
 	serverMessages  chan *message
 	protocolVersion int
 	subprotocol     string
+
+	// sendMu guards sends on (and the closing of) the clientMessages channel.
+	sendMu sync.Mutex
+	closed bool
 }
 
 // This map defines the set of headers that should be stripped from the WS request, as they
@@ -169,9 +174,18 @@ func NewConnection(ctx context.Context, targetURL string, header http.Header, er
 
 // Close closes the websocket client connection.
 func (conn *Connection) Close() {
-	conn.clientMessages <- &message{
+	conn.sendMu.Lock()
+	defer conn.sendMu.Unlock()
+	if conn.closed {
+		return
+	}
+	conn.closed = true
+	select {
+	case conn.clientMessages <- &message{
 		websocket.CloseMessage,
 		websocket.FormatCloseMessage(websocket.CloseNormalClosure, ""),
+	}:
+	case <-conn.done():
 	}
 	// Closing the writing routine.
 	close(conn.clientMessages)
@@ -218,11 +232,15 @@ func (conn *Connection) SendClientMessage(msg interface{}, injectionEnabled bool
 			clientMessage = injectedMsg
 		}
 	}
+	conn.sendMu.Lock()
+	defer conn.sendMu.Unlock()
+	if conn.closed {
+		return fmt.Errorf("attempt to send a client message on a closed websocket connection")
+	}
 	select {
 	case <-conn.done():
 		return fmt.Errorf("attempt to send a client message on a closed websocket connection")
-	default:
-		conn.clientMessages <- clientMessage
+	case conn.clientMessages <- clientMessage:
 	}
 	return nil
 }
